@@ -45,8 +45,9 @@ Definition call_ppt_refused (callee : session) (opts : dict) : bool :=
 Definition call_disclose_refused_cond (cfg : config) (r : registration) (callee_id : N) (opts : dict) : bool :=
   negb (reg_discloses r callee_id) && opt_bool opts "disclose_me" && negb (c_disclose cfg).
 
-Definition timeout_forwarded (callee : session) (r : registration) : bool :=
-  sess_feature callee "callee" f_call_timeout && reg_fwd_timeout r.
+(** THIS callee asked for forward_timeout at REGISTER and announced call_timeout *)
+Definition timeout_forwarded (callee : session) (callee_id : N) (r : registration) : bool :=
+  sess_feature callee "callee" f_call_timeout && reg_forwards r callee_id.
 
 (** INVOCATION.Details of a first chunk *)
 Definition call_details (cfg : config) (caller callee : session) (callee_id : N) (r : registration)
@@ -63,26 +64,26 @@ Definition call_details (cfg : config) (caller callee : session) (callee_id : N)
     then dset det1 "receive_progress" (VBool true) else det1 in
   let det3 := if String.eqb (reg_match r) match_exact then det2
               else dset det2 "procedure" (vuri proc) in
-  if (0 <? opt_int64 opts "timeout")%Z && timeout_forwarded callee r
+  if (0 <? opt_int64 opts "timeout")%Z && timeout_forwarded callee callee_id r
   then dset det3 "timeout" (VInt KInt64 (opt_int64 opts "timeout")) else det3.
 
 (** the registration with the cursor [select_callee] returned *)
 Definition call_d0 (d : dealer) (r : registration) (next : N) : dealer :=
   d_set_regs d (nset (d_regs d) (reg_id r) (reg_set_next r next)).
 
-Definition local_timer (tmo : Z) (callee : session) (r : registration) : bool :=
-  (0 <? tmo)%Z && negb (timeout_forwarded callee r).
+Definition local_timer (tmo : Z) (callee : session) (callee_id : N) (r : registration) : bool :=
+  (0 <? tmo)%Z && negb (timeout_forwarded callee callee_id r).
 
 Definition first_inv (d : dealer) (cid : callid) (callee_id : N) (callee : session) (r : registration)
            (opts : dict) : invocation :=
   mkInv cid callee_id false (opt_bool opts "progress")
-        (if local_timer (opt_int64 opts "timeout") callee r then Some (d_timergen d + 1) else None) opts.
+        (if local_timer (opt_int64 opts "timeout") callee callee_id r then Some (d_timergen d + 1) else None) opts.
 
 Definition call_first_state (now : N) (d : dealer) (cid : callid) (opts : dict)
            (r : registration) (callee_id next : N) (callee : session) : dealer :=
   let d0 := call_d0 d r next in
   let tmo := opt_int64 opts "timeout" in
-  let d1 := if local_timer tmo callee r
+  let d1 := if local_timer tmo callee callee_id r
             then d_set_timers d0 (nset (d_timers d0) (d_timergen d0 + 1) (now + Z.to_N tmo, cid)) (d_timergen d0 + 1)
             else d0 in
   let ikey := (callee_id, idgen_next (s_invgen callee)) in
@@ -94,7 +95,7 @@ Definition chunk_state (now : N) (d : dealer) (cid ikey : callid) (inv : invocat
            (callee : session) (r : registration) (in_progress : bool) : dealer :=
   let inv1 := inv_set_inprogress inv in_progress in
   let tmo := opt_int64 (inv_opts inv) "timeout" in
-  if local_timer tmo callee r then
+  if local_timer tmo callee (inv_callee inv) r then
     let dc := cancel_timer d (inv_timer inv1) in
     let t := d_timergen dc + 1 in
     let d1 := d_set_timers dc (nset (d_timers dc) t (now + Z.to_N tmo, cid)) t in
@@ -148,7 +149,7 @@ Section Call.
     destruct (lookup (inv_callee inv)) as [callee|]; [|reflexivity].
     unfold chunk_state, local_timer, timeout_forwarded.
     destruct ((0 <? opt_int64 (inv_opts inv) "timeout")%Z &&
-              negb (sess_feature callee "callee" f_call_timeout && reg_fwd_timeout r)); reflexivity.
+              negb (sess_feature callee "callee" f_call_timeout && reg_forwards r (inv_callee inv))); reflexivity.
   Qed.
 
   Lemma call_select_none : forall r,
@@ -203,7 +204,7 @@ Section Call.
     destruct (negb (reg_discloses r callee_id) && opt_bool opts "disclose_me" && negb (c_disclose cfg)); [reflexivity|].
     unfold call_first_state, call_details, first_inv, local_timer, timeout_forwarded, call_d0, reg_set_next.
     destruct ((0 <? opt_int64 opts "timeout")%Z &&
-              negb (sess_feature callee "callee" f_call_timeout && reg_fwd_timeout r)); reflexivity.
+              negb (sess_feature callee "callee" f_call_timeout && reg_forwards r callee_id)); reflexivity.
   Qed.
 
   (** Every outcome of [call]. *)
@@ -445,7 +446,7 @@ Definition details1 (caller callee : session) (callee_id : N) (r : registration)
 
 Lemma call_details_layers : forall cfg caller callee callee_id r opts proc,
     call_details cfg caller callee callee_id r opts proc =
-    (if (0 <? opt_int64 opts "timeout")%Z && timeout_forwarded callee r
+    (if (0 <? opt_int64 opts "timeout")%Z && timeout_forwarded callee callee_id r
      then dset (if String.eqb (reg_match r) match_exact
                 then (if wants_progress callee opts then dset (details1 caller callee callee_id r opts) "receive_progress" (VBool true)
                       else details1 caller callee callee_id r opts)
@@ -486,7 +487,7 @@ Lemma call_details_spec : forall cfg caller callee callee_id r opts proc,
     dget det "progress" = Some (VBool (opt_bool opts "progress")) /\
     dget det "receive_progress" = (if wants_progress callee opts then Some (VBool true) else None) /\
     dget det "procedure" = (if String.eqb (reg_match r) match_exact then None else Some (vuri proc)) /\
-    dget det "timeout" = (if (0 <? opt_int64 opts "timeout")%Z && timeout_forwarded callee r
+    dget det "timeout" = (if (0 <? opt_int64 opts "timeout")%Z && timeout_forwarded callee callee_id r
                           then Some (VInt KInt64 (opt_int64 opts "timeout")) else None) /\
     dget det "caller" = (if disclosed callee callee_id r opts then Some (vid (s_id caller)) else None) /\
     dget det "caller_authid" = (if disclosed callee callee_id r opts then dget (s_details caller) "authid" else None) /\
@@ -504,7 +505,7 @@ Proof.
     apply P0; [not_ppt_key | discriminate].
   - destruct (String.eqb (reg_match r) match_exact); cbn [negb]; [|reflexivity].
     rewrite details1_other by discriminate. apply P0; [not_ppt_key | discriminate].
-  - destruct ((0 <? opt_int64 opts "timeout")%Z && timeout_forwarded callee r); [reflexivity|].
+  - destruct ((0 <? opt_int64 opts "timeout")%Z && timeout_forwarded callee callee_id r); [reflexivity|].
     rewrite details1_other by discriminate. apply P0; [not_ppt_key | discriminate].
   - unfold details1. destruct (disclosed callee callee_id r opts); [exact D1 | apply P0; [not_ppt_key | discriminate]].
   - unfold details1. destruct (disclosed callee callee_id r opts); [exact D2 | apply P0; [not_ppt_key | discriminate]].
@@ -531,7 +532,7 @@ Section States.
   Variables (now : N) (d : dealer) (cid : callid) (opts : dict) (r : registration)
             (callee_id next : N) (callee : session).
   Let S := call_first_state now d cid opts r callee_id next callee.
-  Let lt := local_timer (opt_int64 opts "timeout") callee r.
+  Let lt := local_timer (opt_int64 opts "timeout") callee callee_id r.
 
   Lemma cfs_calls : d_calls S = cset (d_calls d) cid (fst cid).
   Proof. unfold S, call_first_state. destruct (local_timer _ _ _); reflexivity. Qed.
@@ -562,7 +563,7 @@ Section ChunkState.
   Variables (now : N) (d : dealer) (cid ikey : callid) (inv : invocation)
             (callee : session) (r : registration) (p : bool).
   Let S := chunk_state now d cid ikey inv callee r p.
-  Let lt := local_timer (opt_int64 (inv_opts inv) "timeout") callee r.
+  Let lt := local_timer (opt_int64 (inv_opts inv) "timeout") callee (inv_callee inv) r.
 
   Lemma chs_calls : d_calls S = d_calls d.
   Proof. unfold S, chunk_state. destruct (local_timer _ _ _); dproj; [apply ct_calls | reflexivity]. Qed.
@@ -683,7 +684,7 @@ Theorem timeout_forwarded_iff_proof : forall cfg now d caller req opts proc r ca
     let det := call_details cfg caller callee callee_id r opts proc in
     let d' := call_first_state now d cid opts r callee_id next callee in
     let inv := first_inv d cid callee_id callee r opts in
-    (dget det "timeout" <> None <-> ((0 < tmo)%Z /\ sess_feature callee "callee" f_call_timeout = true /\ reg_fwd_timeout r = true)) /\
+    (dget det "timeout" <> None <-> ((0 < tmo)%Z /\ sess_feature callee "callee" f_call_timeout = true /\ reg_forwards r callee_id = true)) /\
     (dget det "timeout" <> None -> dget det "timeout" = Some (VInt KInt64 tmo) /\
                                    d_timers d' = d_timers d /\ inv_timer inv = None) /\
     (dget det "timeout" = None -> (0 < tmo)%Z ->
@@ -696,7 +697,7 @@ Proof.
   fold det tmo in D4. subst d' inv. rewrite cfs_timers, cfs_timergen. unfold first_inv. cbn [inv_timer].
   fold tmo. unfold local_timer, timeout_forwarded in *.
   rewrite D4. destruct (Z.ltb_spec 0 tmo) as [Hpos|Hnp]; cbn [andb].
-  - destruct (sess_feature callee "callee" f_call_timeout), (reg_fwd_timeout r); cbn [andb negb].
+  - destruct (sess_feature callee "callee" f_call_timeout), (reg_forwards r callee_id); cbn [andb negb].
     + repeat split; auto; try congruence; try lia.
     + repeat split; auto; try congruence; try lia; intros (_ & _ & E); discriminate.
     + repeat split; auto; try congruence; try lia; intros (_ & E & _); discriminate.
